@@ -73,6 +73,7 @@ type Gate struct {
 	release chan struct{} // closed by Release
 	once    sync.Once
 	Repeat  bool // hold every matching call, not only the first
+	After   bool // hold the call after it has produced its result (ReadAt/WriteAt only), not on entry
 	fired   bool
 }
 
@@ -94,6 +95,7 @@ type Anomaly struct {
 // Options configure a FS.
 type Options struct {
 	NativeWalkGetAttr bool // false: WalkGetAttr returns ENOSYS (server falls back to Walk+GetAttr)
+	TailEOF           bool // ReadAt returns io.EOF together with the data when it reaches the end of the file (as os.File does)
 	Monitor           bool // run the overlap monitor
 	KeepLog           bool // keep the full call log (default true via New)
 }
@@ -233,7 +235,7 @@ func (fs *FS) enter(h *Handle, c *Call) *Fault {
 	}
 	var hold []*Gate
 	for _, g := range fs.gates {
-		if (!g.fired || g.Repeat) && g.Match(c) {
+		if !g.After && (!g.fired || g.Repeat) && g.Match(c) {
 			g.fired = true
 			hold = append(hold, g)
 		}
@@ -251,6 +253,26 @@ func (fs *FS) enter(h *Handle, c *Call) *Fault {
 		perturb(c)
 	}
 	return fault
+}
+
+// after holds a call that has produced its result at the matching after-gates.
+func (fs *FS) after(c *Call) {
+	fs.mu.Lock()
+	var hold []*Gate
+	for _, g := range fs.gates {
+		if g.After && (!g.fired || g.Repeat) && g.Match(c) {
+			g.fired = true
+			hold = append(hold, g)
+		}
+	}
+	fs.mu.Unlock()
+	for _, g := range hold {
+		select {
+		case g.Entered <- c:
+		default:
+		}
+		<-g.release
+	}
 }
 
 func (fs *FS) exit(c *Call, errno int) {
@@ -764,11 +786,16 @@ func (h *Handle) ReadAt(p []byte, offset int64) (int, error) {
 		}
 		h.fs.treeMu.Lock()
 		n = i.ReadAt(buf, uint64(offset))
+		atEnd := uint64(offset)+uint64(n) >= i.Size
 		h.fs.treeMu.Unlock()
 		if n == 0 && len(p) > 0 && limit != 0 {
 			err = io.EOF
 		}
+		if h.fs.opts.TailEOF && atEnd && n < len(buf) {
+			err = io.EOF
+		}
 	}
+	h.fs.after(c)
 	c.Args = append(c.Args, uint64(n))
 	h.fs.exit(c, e)
 	if e != 0 && err == nil {
